@@ -45,8 +45,8 @@ namespace vsim
         ST_REPLAY = 3
     };
 
-    // a non-default decision: when thread `thr` is at its `count`-th point of class `cls`
-    // ('S' sync hook, 'F' function boundary), hand over to thread `to`.
+    // a non-default decision: when thread `thr` takes its `count`-th decision of class `cls`
+    // (S: scheduling decision at a sync hook, F: function-boundary point), hand over to thread `to`.
     // spur != 0: first wake `to` spuriously from its condition-variable wait.
     struct Deviation
     {
